@@ -279,6 +279,63 @@ pub fn run(ctx: &Ctx) -> Report {
     }
     rep.absorb(par_cases(&scases, |c, l| judge_data_sized(c.0, c.1, c.2, l)));
 
+    // values that are only in range once an over-estimated instruction has shrunk: the range check is about the final
+    // value, not about a guess on the way (directed; the unique fixed point is reached in three passes). Width 8 / 4,
+    // data directive and typed argument, just inside and just outside.
+    {
+        let head = "#ruledef\n{\n    jb {a} => { assert(a < 6), 0xa @ a`4 }\n    jb {a} => 0xb0 @ a`8\n    t8 {x: u8} => 0x55 @ x\n    s8 {x: s8} => 0x66 @ x\n}\n";
+        // B - A is 2 in the first passes and 1 in the end
+        let cases: Vec<(&str, Option<Vec<u8>>)> = vec![
+            ("#d8 254 + (B - A)", Some(vec![0xff])),
+            ("#d8 (A - B) - 127", Some(vec![0x80])),
+            ("#d8 255 + (B - A)", None),
+            ("#d8 (A - B) - 128", None),
+            ("t8 254 + (B - A)", Some(vec![0x55, 0xff])),
+            ("s8 (A - B) - 127", Some(vec![0x66, 0x80])),
+            ("t8 255 + (B - A)", None),
+            ("s8 (A - B) - 128", None),
+        ];
+        let mut loc = Local::new();
+        for (line, want) in &cases {
+            for before in [false, true] {
+                let src = if before { format!("{}{}\nA:\njb B\nB:\n", head, line) } else { format!("{}A:\njb B\nB:\n{}\n", head, line) };
+                for iters in [10usize, 30] {
+                    loc.eval();
+                    loc.nontrivial(&(&src, iters));
+                    loc.class(if want.is_some() { "late-value-accept" } else { "late-value-reject" });
+                    let obs = run::assemble_str(&src, &run::Opts::iters(iters));
+                    // the jb in front emits a1 when the data follows it, and stands behind the data otherwise
+                    let expect_bits: Option<String> = want.as_ref().map(|w| {
+                        let mut bytes: Vec<u8> = vec![];
+                        if before {
+                            bytes.extend(w.iter());
+                            // A = len(w): jb B with B = A + 1
+                            bytes.push(0xa0 | ((w.len() as u8 + 1) & 0xf));
+                        } else {
+                            bytes.push(0xa1);
+                            bytes.extend(w.iter());
+                        }
+                        bytes.iter().map(|b| format!("{:08b}", b)).collect()
+                    });
+                    let bad = if obs.panicked.is_some() {
+                        Some("panic")
+                    } else {
+                        match &expect_bits {
+                            Some(b) if !obs.success() => { let _ = b; Some("a value that is representable in the end was rejected") }
+                            Some(b) if obs.bits != *b => Some("wrong bits"),
+                            None if obs.ok => Some("a value that is not representable in the end was accepted"),
+                            _ => None,
+                        }
+                    };
+                    loc.traces_validated += 1;
+                    if let Some(b) = bad {
+                        loc.violation(Violation { property: ID, key: format!("late-value:{}", b), what: format!("{} [iters={}]: {}", b, iters, src.replace('\n', " / ")), case: json!({"family": "late-value", "program": src, "iters": iters, "expected": {"accept": expect_bits.is_some(), "bits": expect_bits}, "observed": obs.summary()}) });
+                    }
+                }
+            }
+        }
+        rep.absorb(loc);
+    }
     rep.extra("widths_fully_enumerated", json!(format!("0..={} (every v in [-2^N-4, 2^N+4]); {}..=256 at every boundary +-4", full_upto, full_upto + 1)));
     rep.extra("typed_cases", json!(cases.len()));
     rep.extra("data_cases", json!(dcases.len() + scases.len()));
